@@ -12,6 +12,7 @@ import importlib
 import json
 import os
 import random
+import subprocess
 import sys
 import traceback
 
@@ -179,7 +180,7 @@ class Ctx:
         documented environment variables (MNEMONIC, PASSWORD, ACCOUNT_INDEX, HD_PATH).  A sample of the CLI runs made so far is
         repeated (a) with an environment variable set for EVERY long option name the binary's --help shows (UPPER_SNAKE_CASE, and
         with an HDWALLET_ prefix) plus a few generic names, (b) from a working directory that contains files named after the
-        command's arguments, (c) with standard output connected to a pseudo-terminal; exit class and stdout must be unchanged."""
+        command's arguments, (c) with standard output connected to a pseudo-terminal, (d) with the release build of the binary; exit class and stdout must be unchanged."""
         rec = self.__dict__.get("_cli_recorded", [])
         if not rec or "cli" not in self.bins:
             return
@@ -228,6 +229,13 @@ class Ctx:
             for (rn, x), r in zip(tty, tres):
                 meta.append((rn, x, "standard output is a terminal"))
                 res.append(r)
+            # (d) the release build (what users install; overflow checks and debug assertions off) prints the same
+            if self.bins.get("cli_release_ambient"):
+                rel = [(rn, x) for rn, x in picks if not rn.get("stdin_chunks")]
+                rres = implrun.cli_map(self.bins["cli_release_ambient"], [rn for rn, _ in rel], timeout=60)
+                for (rn, x), r in zip(rel, rres):
+                    meta.append((rn, x, "release build instead of the dev build"))
+                    res.append(r)
             for (rn, x, how), r in zip(meta, res):
                 self.count("ambient-independence")
                 if r.cls != x.cls or r.stdout != x.stdout:
